@@ -5,6 +5,7 @@ import (
 	"math/rand"
 	"runtime"
 	"strings"
+	"time"
 
 	"verifharness/adapt"
 	"verifharness/mon"
@@ -323,7 +324,15 @@ var c09Item = val.Item{"a": val.Str("x"), "b": val.Num("2"), "c": val.List(val.S
 
 func (p *c09) checkCond(x *res, s c09Str, names map[string]string, values val.Item, viaClient bool, ctx *runner.Ctx) {
 	ctx.Trace("cond %q names=%v", s.s, names)
-	got, msg, site, _ := matchDirect(s.s, names, c09Item, values)
+	if c09Stuck {
+		x.r.Counters["skipped_after_an_evaluation_that_did_not_return"]++
+		return
+	}
+	var got refmodel.Res
+	var msg, site string
+	if !p.returns(x, "condition", s, names, values, func() { got, msg, site, _ = matchDirect(s.s, names, c09Item, values) }) {
+		return
+	}
 	x.r.Evals++
 	toks := tokenize(s.s)
 	x.fp(len(s.s) > 0, "cond|%s", tokenKinds(toks))
@@ -358,6 +367,38 @@ func (p *c09) checkCond(x *res, s c09Str, names map[string]string, values val.It
 		})
 		p.condViaClient(x, s, names, values, got, sentence, ctx)
 	}
+}
+
+// c09Stuck: an evaluation of this worker process did not return; its goroutine is still spinning. The violation is
+// reported once, the rest of the worker's cases are skipped (and counted) instead of hanging one after the other.
+var c09Stuck bool
+
+// returns runs one evaluation of the front end and waits for it. "Terminates" is judged generously: evaluations take
+// microseconds (the 4 KB extremes under a second); one that has not come back after 30 seconds while its goroutine
+// is inside the interpreter is reported as non-termination. If the goroutine dump does not show it there (a starved
+// machine), the case is inconclusive, not a violation.
+func (p *c09) returns(x *res, grammar string, s c09Str, names map[string]string, values val.Item, f func()) bool {
+	done := make(chan struct{})
+	go func() {
+		defer close(done)
+		f()
+	}()
+	select {
+	case <-done:
+		return true
+	case <-time.After(30 * time.Second):
+	}
+	c09Stuck = true
+	buf := make([]byte, 1<<20)
+	dump := string(buf[:runtime.Stack(buf, true)])
+	if !strings.Contains(dump, "minidyn/interpreter") {
+		x.r.Inconclusive++
+		x.set("inconclusive", "an evaluation did not return within 30 s and is not inside the interpreter")
+		return false
+	}
+	x.viol("does-not-return", grammar, fmt.Sprintf("%s %q (%s): the evaluation has not returned after 30 seconds (normal: microseconds); its goroutine is inside the interpreter", grammar, s.s, s.kind),
+		map[string]interface{}{"grammar": grammar, "expression": s.s, "derived_by": s.kind, "names": names, "values": values})
+	return false
 }
 
 // astBound reports whether every placeholder the AST uses is supplied and resolved.
@@ -521,7 +562,15 @@ func (p *c09) condViaClient(x *res, s c09Str, names map[string]string, values va
 func (p *c09) checkUpdate(x *res, s c09Str, names map[string]string, values val.Item, viaClient bool, ctx *runner.Ctx) {
 	ctx.Trace("update %q names=%v", s.s, names)
 	base := c07BaseItem(rand.New(rand.NewSource(1)), 2)
-	got, msg, site, after := updateDirect(s.s, names, base, values)
+	if c09Stuck {
+		x.r.Counters["skipped_after_an_evaluation_that_did_not_return"]++
+		return
+	}
+	var got, msg, site string
+	var after val.Item
+	if !p.returns(x, "update", s, names, values, func() { got, msg, site, after = updateDirect(s.s, names, base, values) }) {
+		return
+	}
 	x.r.Evals++
 	toks := tokenize(s.s)
 	x.fp(len(s.s) > 0, "upd|%s", tokenKinds(toks))
